@@ -25,11 +25,14 @@ NPOS = 2**64 - 1
 
 RULE = ("widths {1,7,8,9,31,32,33,63,64,65,127,128,129} x {etl::bitset, basic_bitset<uint8/16/32/64>}; "
         "widths <= 9: every value x every single operation (whole-set, every position incl. the padding "
-        "positions and one past the storage, proxy ops, queries) for every class; width 7: every pair of values "
-        "under &=,|=,^= and the free operators; all widths: seeded random histories (8-24 steps) mixing whole-set, "
+        "positions and one past the storage, proxy ops, queries) for etl::bitset and basic_bitset<uint8> (every 5th "
+        "value for uint16/32/64 in the quick tier, all in thorough); width 7: every pair of values under &=,|=,^= "
+        "for etl::bitset (free operators on every 8th pair; basic_bitset pairs sampled in quick); all widths: "
+        "seeded random histories (8-24 steps) mixing whole-set, "
         "single-bit, proxy, binary, integer- and string-constructor steps with positions biased to word and width "
-        "boundaries, each also replayed as a raw-storage (words) comparison; string constructors with lengths "
-        "around the width, pos/n around the ends, custom and coinciding zero/one; to_string with custom characters; "
+        "boundaries, every second one also replayed as a raw-storage (words) comparison; string constructors with "
+        "lengths around the width, pos/n around the ends, custom and coinciding zero/one, foreign characters inside "
+        "and outside the used range; to_string with custom characters; "
         "popcount fallback exhaustively for 8 bit and on boundary/random values above. "
         "non-trivial = distinct case line with at least one non-contract step and a set bit somewhere")
 
